@@ -1,5 +1,6 @@
 (* Proof/ChanWakeL3.v -- layer 3 of the C05 invariant: total_outbufs_len counts the
-   buffered bytes (outside the F18 class), and connected / closed follow handle_close. *)
+   buffered bytes (every writer holds outbuf_lock since 8bcf05e), and connected / closed
+   follow handle_close. *)
 From Coq Require Import List ZArith Bool Arith Lia.
 From WV Require Import Model.ChanWake Proof.ChanWakeInv Proof.ChanWakeBase Proof.ChanWakeL1 Proof.ChanWakeL2.
 Import ListNotations.
@@ -20,8 +21,6 @@ Definition w_writer (p : wpc) : bool :=
 
 Definition tot_ok (s : state) : Prop :=
   match io s with
-  | IoFlUR n => total s = pend s + n
-  | IoFlUW v => v = pend s
   | IoHCc _ => True
   | _ => conn s = true -> total s = pend s
   end.
@@ -91,9 +90,6 @@ Proof.
        try (intros Hx; specialize (Ht3 Hx); lia);
        try (intros Hx; destruct (Hc3 Hx); [congruence|discriminate]);
        try (apply inv3_n_notify; auto); try (apply inv3_n_add_task; auto).
-  assert (Hcn : conn s = true).
-  { destruct (conn s) eqn:Ec; auto. destruct (Hc3 eq_refl); congruence. }
-  specialize (Ht3 Hcn). lia.
 Qed.
 
 Lemma inv3_step_w : forall c s i ch s' l,
@@ -101,19 +97,14 @@ Lemma inv3_step_w : forall c s i ch s' l,
 Proof.
   intros c s i ch s' l HI1 HI2 [Hpe Ht3 Hc2 Hc3 Hlate Hn] H Ht. unfold step_w in H.
   destruct (getw s i) as [pc|] eqn:Hg; [|discriminate]. unfold getw in Hg.
-  assert (Hsc : w_sc pc = false) by (destruct HI1 as [_ _ Hw1 _ _]; destruct (Hw1 _ _ Hg) as (_ & _ & Hx); exact Hx).
-  assert (Hnofl : w_main pc = true -> io_uflush (io s) = false).
-  { intros Hm. destruct (i2_w _ HI2 _ _ Hg) as [Hm1 _]. specialize (Hm1 Hm).
-    destruct (io_uflush (io s)) eqn:E; auto. pose proof (i2_fl _ HI2) as Hf. rewrite E in Hf.
-    specialize (Hf eq_refl). lia. }
   assert (Hni : forall n, wpc_n pc = Some n -> 0 < n) by (intros n0 Hx; eapply Hn; eauto).
   unfold tot_ok in Ht3.
-  step_cases H; simpl in Hsc; try discriminate Hsc.
+  step_cases H.
+  all: simpl in Ht; try discriminate Ht.
   all: unfold setw, hw_exit in *.
   all: repeat match goal with |- context [if ?b then _ else _] => destruct b eqn:? end.
   all: repeat match goal with |- context [match ?b with SWr _ => _ | SEnd => _ end] => destruct b eqn:? end.
   all: z_hyps.
-  all: try (specialize (Hnofl eq_refl)).
   all: try match goal with |- context [add_task ?x] => destruct (add_task_fields3 x) as (F1 & F2 & F3 & F4 & F5) end.
   all: constructor; unfold tot_ok; simpl; rewrite ?F1, ?F2, ?F3, ?F4, ?F5; auto; try lia.
   all: try (intros j p n' Hj Hpn; apply nth_error_upd_inv in Hj; destruct Hj as [[-> ->]|[Hne Hj]];
@@ -126,7 +117,8 @@ Proof.
   all: try (intros Hx; destruct (Hc3 Hx); [congruence|auto]; fail).
   all: try (destruct (io s) eqn:Eio; simpl in *; try discriminate; intros; try lia;
             try (specialize (Ht3 ltac:(assumption)); lia); try congruence; fail).
-  specialize (Hni n eq_refl). lia.
+  - specialize (Hni n eq_refl). lia.
+  - unfold cont_len. lia.
 Qed.
 
 Lemma inv3_step : forall c s ch s' l,
